@@ -84,6 +84,23 @@ def sparse_get(E):
     E.prove('get:in-address-order', L.forall(0, c, lambda k: L.at(r, k) == L.map_get(blk.values, a + k)))
 
 
+def sparse_set(E):
+    """sparse block: a write of n values to an accepted range changes exactly those cells, keeps the key set, and is read back"""
+    blk = S.sparse_block(E, 's')
+    a = E.int('address')
+    new = E.ints('new', 0, 65536, minlen=1)
+    n = L.length(new)
+    E.assume(L.truth(E.call(S.SPARSE + '.validate', blk, a, n)))
+    old = blk.values.snapshot() if E.mode == 'symbolic' else dict(blk.values)
+    E.call(S.SPARSE + '.setValues', blk, a, new)
+    k = E.int('k')
+    E.prove('sparse.setValues:key-set-unchanged', L.Iff(L.map_has(blk.values, k), L.map_has(old, k)))
+    E.prove('sparse.setValues:exactly-those-cells', L.Implies(L.map_has(old, k), L.map_get(blk.values, k) ==
+            L.ite(L.And(a <= k, k < a + n), L.at(new, k - a), L.map_get(old, k))))
+    got = E.call(S.SPARSE + '.getValues', blk, a, n)
+    E.prove('sparse.setValues:read-back', L.eq(got, new))
+
+
 def slave_offset(E):
     """slave context: documented one-based offset unless zero-mode; table by function code (spec table)"""
     ctx = S.slave_context(E)
@@ -201,6 +218,8 @@ def get_units():
     ]
     us += [
         Unit('C18/sparse.getValues', sparse_get, ['C18'], functions=[S.SPARSE + '.getValues']),
+        Unit('C18/sparse.setValues', sparse_set, ['C18'], functions=[S.SPARSE + '.setValues', S.SPARSE + '.getValues'],
+             loops={(S.SPARSE + '.setValues', 1): S.SparseSetValues.loops[1]}),
         Unit('C18/slave.offset', slave_offset, ['C18'], contracts=S.STORE_CONTRACTS,
              functions=[S.SLAVE + '.validate', S.SLAVE + '.getValues', 'pymodbus.interfaces.IModbusSlaveContext.decode']),
         Unit('C18/slave.setValues', slave_set, ['C18'], contracts=S.STORE_CONTRACTS, functions=[S.SLAVE + '.setValues']),
